@@ -8,8 +8,8 @@ NoDurs == {}
 NoTimes == {}
 TD(D) == DurI(D)
 CaseOf ==
-  IF last.op = "add" THEN [op |-> "PlainTime.add", cls |-> "add", args |-> [recv |-> last.a, dur |-> TD(last.dur)], out |-> last.out]
-  ELSE IF last.op = "subtract" THEN [op |-> "PlainTime.subtract", cls |-> "subtract", args |-> [recv |-> last.a, dur |-> TD(last.dur)], out |-> last.out]
+  IF last.op = "add" THEN [op |-> "PlainTime.add", cls |-> "add/" \o last.via, args |-> [recv |-> last.a, dur |-> TD(last.dur), via |-> last.via], out |-> last.out]
+  ELSE IF last.op = "subtract" THEN [op |-> "PlainTime.subtract", cls |-> "subtract/" \o last.via, args |-> [recv |-> last.a, dur |-> TD(last.dur), via |-> last.via], out |-> last.out]
   ELSE IF last.op = "until" THEN [op |-> "PlainTime.until", cls |-> "until/" \o last.lg, args |-> [recv |-> last.a, other |-> last.b, st |-> [largest |-> last.lg]], out |-> last.out]
   ELSE [op |-> "PlainTime.since", cls |-> "since/" \o last.lg, args |-> [recv |-> last.a, other |-> last.b, st |-> [largest |-> last.lg]], out |-> last.out]
 Emit == last.op = "none" \/ PrintT("CASE " \o ToJson(CaseOf))
